@@ -2,7 +2,7 @@
    The wall-clock clause (movetime / clocks) is a measurement in the correspondence run, not a theorem; a depth
    limit >= MAX_DEPTH is the recorded known finding (the loop below stops at MAX_DEPTH - 1). *)
 From Coq Require Import NArith ZArith List Bool.
-From Rawr Require Import Consts Bits Magic Position MoveGen MakeMove Eval TT Search MakeStages SearchFacts Closure MenCount SearchBound.
+From Rawr Require Import Consts Bits Magic Position MoveGen MakeMove Eval TT Search MakeStages SearchFacts Closure MenCount EpRetro SearchBound GenLegal.
 Import ListNotations.
 Local Open Scope Z_scope.
 
@@ -28,14 +28,13 @@ Theorem C14_depth_limit_honoured : forall fuel p hist tt d r,
 Proof. exact depth_limit_honoured. Qed.
 
 (* every reported score lies within the mate bounds, hence strictly inside (-INF, INF), and the table the search leaves
-   behind satisfies the table invariant again -- for every limit, history and admissible table (SearchBound.v; the named
-   hypothesis is the soundness half of C01) *)
-Theorem C14_scores_within_the_mate_bounds : forall (stopf : Stats -> bool),
-  (forall u p m, Inv0 p -> In m (legal_moves p) -> in_check_them (makemove u p m) = false) ->
-  forall fuel p hist tt r, InvS p -> TBnd tt -> Z.of_nat fuel <= 2 * MATE_SCORE ->
+   behind satisfies the table invariant again -- for every limit, history and admissible table (SearchBound.v; no
+   hypothesis left: GenLegal.v) *)
+Theorem C14_scores_within_the_mate_bounds : forall (stopf : Stats -> bool) fuel p hist tt r,
+  InvSR p -> TBnd tt -> Z.of_nat fuel <= 2 * MATE_SCORE ->
   root stopf fuel p hist tt = Some r ->
   (forall i, In i (rr_infos r) -> - MATE_SCORE <= i_score i <= MATE_SCORE /\ - INF < i_score i < INF) /\ TBnd (ss_tt (rr_state r)).
-Proof. exact root_scores_bounded. Qed.
+Proof. exact search_scores_within_the_mate_bounds. Qed.
 
 Print Assumptions C14_iterations_in_order.
 Print Assumptions C14_nodes_limit_honoured.
